@@ -31,12 +31,19 @@ using namespace vh;
 using namespace c07;
 
 // Input classes that hit a known defect very often can be avoided by the generator (default: not avoided)
-static const bool AVOID_SETLOCATORSBYCOLIDX = false; // D2: Db::setLocatorsByColIdx uses the loop index as column index
-static const bool AVOID_OWN_TYPE_RELOCATE   = false; // setLocator*(col already of that type): hole / neighbour loses role
-static const bool AVOID_SETNAMEBYCOLIDX_DUP = false; // setNameByColIdx does not de-duplicate
-static const bool AVOID_ADDSAMPLES_TEST_SEL = false;
-static const bool AVOID_ADDCOLUMNS_USESEL_SEL = false; // addColumns(tab, …, ELoc::SEL, …, useSel=true)
-static const bool AVOID_UNKNOWN_WITH_CLEAN  = false; // setLocator*(…, ELoc::UNKNOWN, …, cleanSameLocator=true): _p[-1] // addSamples(default TEST) on a Db with a selection
+#ifdef C07_AVOID_ALL // calibration builds only: check that nothing else fires once the known input classes are avoided
+#define C07_AV true
+#else
+#define C07_AV false
+#endif
+static const bool AVOID_SETLOCATORSBYCOLIDX   = C07_AV; // D2: Db::setLocatorsByColIdx uses the loop index as column index
+static const bool AVOID_OWN_TYPE_RELOCATE     = C07_AV; // setLocator*(column already of that type): hole / neighbour loses role
+static const bool AVOID_SETNAMEBYCOLIDX_DUP   = C07_AV; // setNameByColIdx does not de-duplicate
+static const bool AVOID_ADDSAMPLES_TEST_SEL   = C07_AV; // addSamples(default valinit=TEST) on a Db with a selection
+static const bool AVOID_ADDCOLUMNS_USESEL_SEL = C07_AV; // addColumns(tab, ..., ELoc::SEL, ..., useSel=true)
+static const bool AVOID_UNKNOWN_WITH_CLEAN    = C07_AV; // setLocator*(..., ELoc::UNKNOWN, ..., cleanSameLocator=true): _p[-1]
+static const bool AVOID_SETITEM_USESEL        = C07_AV; // setItem(name, values, useSel=true): reads values[] out of range
+static const bool AVOID_RENAME_STEALING       = C07_AV; // setName(list)/setNameByLocator onto a name + suffix already used
 
 static const int T_X = 0, T_Z = 1, T_SEL = 10;
 static const std::vector<int> MULTI = {0, 1, 2, 3, 5, 6}; // X Z V F L U
@@ -537,6 +544,12 @@ static bool gen_rename(Rng& r, const Shadow& s, Op& op)
     case 4: op.args = TN(type) + ",'" + nn + "'"; break;
   }
   op.valid = [=](const Shadow& s) {
+    if (AVOID_RENAME_STEALING && (variant == 1 || variant == 4))
+    {
+      std::vector<int> tg = variant == 4 ? s.loc[type] : uids;
+      for (int u : s.order)
+        if (std::find(tg.begin(), tg.end(), u) == tg.end() && s.cols.at(u).name.compare(0, nn.size() + 1, nn + ".") == 0) return false;
+    }
     if (variant == 4) return true;
     if (absent) return s.uidByName("nosuch") < 0 && !s.namesAmbiguous();
     if (!allLive(s, uids)) return false;
@@ -889,6 +902,266 @@ static bool gen_setBlock(Rng& r, const Shadow& s, Op& op)
   return true;
 }
 
+// ---- update in place, coordinates, Z variable -------------------------------------------------------------------------
+#include "Enum/EOperator.hpp"
+static bool gen_upd(Rng& r, const Shadow& s, Op& op)
+{
+  if (s.ncol() == 0 || s.nech == 0) return false;
+  // 0 updArray 1 updArrayVec 2 updLocVariable 3 updZVariable 4 setZVariable 5 setCoordinate 6 setSampleCoordinates 7 setCoordinates
+  int variant = r.irange(0, 7);
+  int need    = variant == 3 || variant == 4 ? T_Z : (variant >= 5 ? T_X : -1);
+  std::vector<int> cand;
+  for (int u : s.order)
+  {
+    auto l = s.locOf(u);
+    if (isSel(s, u)) continue; // arithmetic on the selection column would leave the 0/1 domain
+    if (variant == 2 && l.first < 0) continue;
+    if (need >= 0 && l.first != need) continue;
+    cand.push_back(u);
+  }
+  if (cand.empty()) return false;
+  int uid = r.pick(cand), nech = s.nech;
+  int type = s.locOf(uid).first, rank = s.locOf(uid).second;
+  int iech = r.irange(0, nech - 1);
+  std::vector<int> iechs = pickDistinct(r, nech, r.irange(1, std::min(4, nech)));
+  // operators with a single reading (EOperator.hpp): ADD "New + Old", PRODUCT "New * Old", SUBTRACT "New - Old", MIN, MAX
+  static const int OPS[] = {1, 2, 3, 8, 9};
+  int oper = OPS[r.irange(0, 4)];
+  std::vector<double> vals;
+  for (size_t i = 0; i < std::max<size_t>(iechs.size(), 3); i++) vals.push_back(r.irange(-6, 12) / 2.0);
+  bool useSel = variant == 7 && s.selUid() >= 0 && s.selClean() && r.coin(0.4);
+  int n       = useSel ? s.nactive() : nech;
+  std::vector<double> tab = dvals(r, n, false);
+  std::vector<int> xs     = s.loc[T_X];
+  bool grid               = s.grid;
+  static const char* N[] = {"updArray", "updArrayVec", "updLocVariable", "updZVariable", "setZVariable", "setCoordinate", "setSampleCoordinates", "setCoordinates"};
+  op.name = N[variant];
+  op.fam  = "val";
+  op.args = (variant == 1 ? pv(iechs) : std::to_string(iech)) + ",uid=" + std::to_string(uid) + "," + TN(type) + "#" + std::to_string(rank) + (variant <= 3 ? ",oper=" + std::to_string(oper) : std::string()) + "," + (variant == 7 ? pv(tab) + ",useSel=" + std::to_string(useSel) : pv(vals));
+  auto apply = [=](double oldv, double v) {
+    switch (oper)
+    {
+      case 1: return v + oldv;
+      case 2: return v * oldv;
+      case 3: return v - oldv;
+      case 8: return std::min(oldv, v);
+      default: return std::max(oldv, v);
+    }
+  };
+  op.valid = [=](const Shadow& s) {
+    if (!s.live(uid) || s.nech != nech || isSel(s, uid)) return false;
+    if (s.locOf(uid) != std::make_pair(type, rank)) return false;
+    if (variant == 6 && (s.loc[T_X] != xs || s.grid != grid)) return false;
+    if (variant == 6 && !grid && xs.empty()) return false;
+    if (variant == 6)
+      for (int u : xs)
+        if (isSel(s, u)) return false;
+    if (variant <= 3)
+    {
+      // the treatment of undefined operands is not documented: only defined old values are updated
+      if (variant == 1) { for (int i : iechs) if (FFFF(s.cols.at(uid).v[i])) return false; }
+      else if (FFFF(s.cols.at(uid).v[iech])) return false;
+    }
+    if (variant == 7 && (useSel ? (s.selUid() < 0 || !s.selClean() || s.nactive() != n) : false)) return false;
+    return true;
+  };
+  op.run = [=](Db*& db, Shadow& s, Exp& e) {
+    std::vector<double>& col = s.cols[uid].v;
+    switch (variant)
+    {
+      case 0: db->updArray(iech, uid, EOperator::fromValue(oper), vals[0]); col[iech] = apply(col[iech], vals[0]); break;
+      case 1:
+      {
+        VectorDouble vv(std::vector<double>(vals.begin(), vals.begin() + iechs.size()));
+        db->updArrayVec(VectorInt(iechs), uid, EOperator::fromValue(oper), vv);
+        for (size_t j = 0; j < iechs.size(); j++) col[iechs[j]] = apply(col[iechs[j]], vals[j]);
+        break;
+      }
+      case 2: db->updLocVariable(EL(type), iech, rank, EOperator::fromValue(oper), vals[0]); col[iech] = apply(col[iech], vals[0]); break;
+      case 3: db->updZVariable(iech, rank, EOperator::fromValue(oper), vals[0]); col[iech] = apply(col[iech], vals[0]); break;
+      case 4: db->setZVariable(iech, rank, vals[0]); col[iech] = vals[0]; break;
+      case 5: db->setCoordinate(iech, rank, vals[0]); col[iech] = vals[0]; break;
+      case 6:
+      {
+        // "Argument 'coor' should have dimension ndim": ndim = number of X columns (Db) or the grid dimension (DbGrid)
+        int ndim = db->getNDim();
+        std::vector<double> coor;
+        for (int i = 0; i < ndim; i++) coor.push_back(vals[i % vals.size()] + i);
+        db->setSampleCoordinates(iech, VectorDouble(coor));
+        for (int i = 0; i < ndim && i < (int)xs.size(); i++) s.cols[xs[i]].v[iech] = coor[i];
+        break;
+      }
+      case 7:
+      {
+        int lec = 0;
+        for (int i = 0; i < nech; i++)
+        {
+          if (!useSel || s.active(i)) col[i] = tab[lec++];
+          else e.dcCell.insert({uid, i}); // goes through setColumnByColIdx: masked samples undocumented
+        }
+        db->setCoordinates(rank, VectorDouble(tab), useSel);
+        break;
+      }
+    }
+  };
+  return true;
+}
+
+// ---- setItem (the operator[] of the scripting interfaces) -------------------------------------------------------------
+static bool gen_setItem(Rng& r, const Shadow& s, Op& op)
+{
+  if (s.ncol() == 0 || s.nech == 0) return false;
+  // 0 setItem(rows, name, values) 1 setItem(name, values) 2 setItem(rows, names, VVD) 3 setItem(names, VVD) 4 setItem(loc, VVD)
+  // 5 setItem(name, values, useSel=true)
+  int variant = r.irange(0, 5);
+  if (variant == 5 && (AVOID_SETITEM_USESEL || !r.coin(0.15))) variant = 1;
+  int nech = s.nech;
+  int k    = (variant == 2 || variant == 3) ? r.irange(1, std::min(3, s.ncol())) : 1;
+  std::vector<int> uids = pickUids(r, s, k);
+  int type = -1;
+  if (variant == 4)
+  {
+    std::vector<int> have;
+    for (int t : MULTI)
+      if (!s.loc[t].empty()) have.push_back(t);
+    if (have.empty()) return false;
+    type = r.pick(have);
+    uids = s.loc[type];
+  }
+  if (variant == 5 && (s.selUid() < 0 || !s.selClean() || s.nactive() == 0 || isSel(s, uids[0]))) variant = 1;
+  std::vector<int> rows = pickDistinct(r, nech, r.irange(1, std::min(4, nech)));
+  bool byRows           = variant == 0 || variant == 2;
+  int n                 = byRows ? (int)rows.size() : (variant == 5 ? s.nactive() : nech);
+  std::vector<std::vector<double>> V;
+  for (int u : uids) V.push_back(dvals(r, n, isSel(s, u)));
+  std::vector<std::string> names = namesOf(s, uids);
+  static const char* N[] = {"setItem(rows,name)", "setItem(name)", "setItem(rows,names)", "setItem(names)", "setItem(locator)", "setItem(name,useSel)"};
+  op.name = N[variant];
+  op.fam  = "val";
+  op.args = (byRows ? pv(rows) + "," : std::string()) + (variant == 4 ? TN(type) : pv(names)) + ",values[0]=" + pv(V[0]);
+  op.valid = [=](const Shadow& s) {
+    if (s.nech != nech || !allLive(s, uids)) return false;
+    if (variant == 4 ? s.loc[type] != uids : !namesOk(s, uids, names)) return false;
+    if (variant == 4 && s.namesAmbiguous()) return false;
+    for (size_t j = 0; j < uids.size(); j++)
+      if (isSel(s, uids[j]) && !Shadow::binary(V[j])) return false;
+    if (variant == 5 && (s.selUid() < 0 || !s.selClean() || s.nactive() != n || isSel(s, uids[0]))) return false;
+    return true;
+  };
+  op.run = [=](Db*& db, Shadow& s, Exp& e) {
+    VectorVectorDouble vvd;
+    for (auto& v : V) vvd.push_back(VectorDouble(v));
+    int ret = -9;
+    switch (variant)
+    {
+      case 0: ret = db->setItem(VectorInt(rows), names[0], VectorDouble(V[0]), false); break;
+      case 1: ret = db->setItem(names[0], VectorDouble(V[0]), false); break;
+      case 2: ret = db->setItem(VectorInt(rows), VS(names), vvd, false); break;
+      case 3: ret = db->setItem(VS(names), vvd, false); break;
+      case 4: ret = db->setItem(EL(type), vvd, false); break;
+      case 5: ret = db->setItem(names[0], VectorDouble(V[0]), true); break;
+    }
+    e.ret("setItem returned " + std::to_string(ret) + " want 0", ret == 0);
+    for (size_t j = 0; j < uids.size(); j++)
+    {
+      std::vector<double>& col = s.cols[uids[j]].v;
+      if (byRows)
+        for (size_t i = 0; i < rows.size(); i++) col[rows[i]] = V[j][i];
+      else if (variant == 5)
+      {
+        // the active samples receive the values in order (the count check of setItem is against the active count)
+        int lec = 0;
+        for (int i = 0; i < nech; i++)
+          if (s.active(i)) col[i] = V[j][lec++];
+        e.cls = "setItem-useSel";
+      }
+      else
+        col = V[j];
+    }
+  };
+  return true;
+}
+
+// ---- NamingConvention::setNamesAndLocators on consecutive UIDs ---------------------------------------------------------
+static bool gen_namconv(Rng& r, const Shadow& s, Op& op)
+{
+  if (s.ncol() == 0) return false;
+  int k = r.irange(1, std::min(3, s.ncol()));
+  std::vector<int> starts;
+  for (int u : s.order)
+  {
+    bool ok = true;
+    for (int i = 0; i < k; i++) ok = ok && s.live(u + i);
+    if (ok) starts.push_back(u);
+  }
+  if (starts.empty()) return false;
+  int u0 = r.pick(starts);
+  std::vector<int> uids;
+  for (int i = 0; i < k; i++) uids.push_back(u0 + i);
+  std::vector<std::string> names;
+  for (int i = 0; i < k; i++) names.push_back(pickName(r));
+  bool flagLoc = r.coin(0.7), clean = r.coin(0.5);
+  int type  = r.pick(MULTI);
+  int len   = (int)s.loc[type].size();
+  int shift = r.coin(0.6) ? 0 : len;
+  if (!clean && shift == 0 && len > 0 && r.coin(0.5)) shift = r.irange(0, len);
+  op.name = "NamingConvention::setNamesAndLocators";
+  op.fam  = "name";
+  op.args = std::to_string(u0) + "," + pv(names) + ",flagSetLocator=" + std::to_string(flagLoc) + "," + TN(type) + ",shift=" + std::to_string(shift) + (clean ? ",clean" : "");
+  op.valid = [=](const Shadow& s) { return locValid(s, uids, flagLoc ? type : -1, shift, clean && shift == 0) && (!flagLoc || shift <= (int)s.loc[type].size()); };
+  op.run = [=](Db*& db, Shadow& s, Exp& e) {
+    NamingConvention nc("", true, true, true, EL(type), ".", clean);
+    nc.setNamesAndLocators(db, u0, VS(names), flagLoc, shift);
+    for (int i = 0; i < k; i++) e.newName[uids[i]] = names[i];
+    if (flagLoc) locModel(s, e, uids, type, shift, clean && shift == 0);
+  };
+  return true;
+}
+
+// ---- designation by PATTERN (String.cpp expandList: "x.*" -> every name matching) -------------------------------------
+static std::vector<int> resolvePattern(const Shadow& s, const std::string& pat)
+{
+  std::vector<int> o;
+  for (int u : s.order)
+    if (nameMatches(pat, s.cols.at(u).name) == 1) o.push_back(u);
+  return o;
+}
+static bool gen_pattern(Rng& r, const Shadow& s, Op& op)
+{
+  if (s.ncol() == 0) return false;
+  int variant = r.irange(0, 1); // 0 deleteColumn(pattern) 1 setLocator(pattern)
+  std::string base = s.cols.at(s.order[r.irange(0, s.ncol() - 1)]).name;
+  size_t cut = base.find_first_of(".-");
+  if (cut != std::string::npos) base = base.substr(0, cut);
+  std::string pat = r.coin(0.15) ? std::string("*") : r.coin(0.5) ? base + "*" : base + "-*";
+  LocArgs a = drawLoc(r, s, 2, true);
+  a.clean   = a.type >= 0 && r.coin(0.3);
+  if (a.type >= 0 && !a.clean) a.idx = r.coin() ? -1 : (int)s.loc[a.type].size();
+  op.name = variant == 0 ? "deleteColumn(pattern)" : "setLocator(pattern)";
+  op.fam  = variant == 0 ? "del" : "loc";
+  op.args = "'" + pat + "'" + (variant == 1 ? "," + locStrArgs(a) : std::string());
+  op.valid = [=](const Shadow& s) {
+    if (s.namesAmbiguous()) return false;
+    std::vector<int> uids = resolvePattern(s, pat);
+    if (variant == 0) return true;
+    return !uids.empty() && locValid(s, uids, a.type, a.idx, a.clean);
+  };
+  op.run = [=](Db*& db, Shadow& s, Exp& e) {
+    std::vector<int> uids = resolvePattern(s, pat);
+    if (variant == 0)
+    {
+      db->deleteColumn(pat);
+      for (int u : uids) s.delCol(u);
+    }
+    else
+    {
+      db->setLocator(pat, EL(a.type), a.idx, a.clean);
+      locModel(s, e, uids, a.type, a.idx, a.clean);
+    }
+  };
+  return true;
+}
+
 // ---- samples ---------------------------------------------------------------------------------------------------------
 static bool gen_samples(Rng& r, const Shadow& s, Op& op)
 {
@@ -1020,7 +1293,7 @@ struct GenEntry
 static const std::vector<GenEntry> GENS = {
   {gen_addColumnsByConstant, 6}, {gen_addColumns, 7}, {gen_addColumnsRandom, 1.5}, {gen_addSelection, 5}, {gen_generateRank, 1},
   {gen_delete, 12}, {gen_rename, 10}, {gen_setLocator, 22}, {gen_clearSwitch, 4}, {gen_setCell, 8}, {gen_setColumn, 9},
-  {gen_setBlock, 7}, {gen_samples, 6}, {gen_object, 3}};
+  {gen_setBlock, 7}, {gen_samples, 6}, {gen_object, 3}, {gen_upd, 5}, {gen_setItem, 4}, {gen_namconv, 2.5}, {gen_pattern, 3}};
 
 static bool genOp(Rng& r, const Shadow& s, Op& op)
 {
@@ -1118,7 +1391,7 @@ static Db* buildInit(const Init& in)
 // Running a history
 // =====================================================================================================================
 static const char* INV_RULES[] = {"count", "names-unique", "uid-col", "isUIDDefined", "name-designation", "name-regex-ambiguous",
-                                  "locator-gap", "locator-two-roles", "locator-designation", "value-views", "active-count"};
+                                  "locator-gap", "locator-two-roles", "locator-designation", "value-views", "selection-views", "active-count"};
 // getter defects that do not depend on the last operation: one key for the state, reported once per history
 static std::string stickyKey(const std::string& rule)
 {
@@ -1165,6 +1438,14 @@ static void repair(Db* db, const std::vector<DbViolation>& viol)
   }
 }
 
+#ifdef C07_PROF
+#include <chrono>
+static double PROF[6];
+struct ProfT { int k; std::chrono::steady_clock::time_point t0; ProfT(int k_) : k(k_), t0(std::chrono::steady_clock::now()) {} ~ProfT() { PROF[k] += std::chrono::duration<double>(std::chrono::steady_clock::now() - t0).count(); } };
+#define PROFT(k) ProfT _pt##k(k)
+#else
+#define PROFT(k)
+#endif
 struct RunResult
 {
   std::vector<StepFail> fails;
@@ -1187,10 +1468,30 @@ static RunResult runHistory(const Init& in, std::vector<Op>& ops, Ctx* c, const 
   }
   Shadow s;
   std::set<std::string> stickyDone;
+  std::vector<std::string> lastNames;
   auto eval = [&](const char* o, bool ok) { if (c) { OracleStat& st = c->stats[o]; st.n++; c->nontrivial = true; (void)ok; } };
   auto checkInv = [&](int step, const std::string& opkey, bool sharedLocKey, std::string& locKey) {
     DbInvOptions o;
-    std::vector<DbViolation> v = collectDbViolations(db, o);
+    // Designation by name costs O(ncol) regex compilations per lookup inside the library: it is re-checked for the
+    // columns whose name is new since the previous step, plus a rotating sample of two columns (all at creation).
+    {
+      std::vector<std::string> nm = db->getAllNames().getVector();
+      if (step >= 0)
+      {
+        o.nameSubset = true;
+        for (int ic = 0; ic < (int)nm.size(); ic++)
+          if (std::find(lastNames.begin(), lastNames.end(), nm[ic]) == lastNames.end())
+          {
+            o.nameCols.push_back(ic);
+            for (int jc = 0; jc < (int)nm.size(); jc++) // older names that, read as patterns, match the new name
+              if (jc != ic && nameMatches(nm[jc], nm[ic]) == 1) o.nameCols.push_back(jc);
+          }
+        if (!nm.empty()) { o.nameCols.push_back((2 * step) % (int)nm.size()); o.nameCols.push_back((2 * step + 1) % (int)nm.size()); }
+      }
+      lastNames = nm;
+    }
+    std::vector<DbViolation> v;
+    { PROFT(3); v = collectDbViolations(db, o); }
     std::set<std::string> seen;
     for (auto& x : v)
     {
@@ -1235,6 +1536,7 @@ static RunResult runHistory(const Init& in, std::vector<Op>& ops, Ctx* c, const 
     {
       // generation mode: the next operation is drawn for the state reached so far
       Op nop;
+      PROFT(0);
       if (gen == nullptr || (int)i >= genLen || !genOp(*gen, s, nop)) break;
       ops.push_back(nop);
     }
@@ -1243,30 +1545,32 @@ static RunResult runHistory(const Init& in, std::vector<Op>& ops, Ctx* c, const 
     if (verbose) fprintf(stderr, "step %zu: %s(%s)\n", i, op.name.c_str(), op.args.c_str());
     Shadow before = s;
     Exp e;
-    op.run(db, s, e);
+    { PROFT(1); op.run(db, s, e); }
     res.stepsRun++;
     res.fams.insert(op.fam);
-    // a known-defect input class gets ONE key whatever the broken rule (except for setLocatorsByColIdx, broken anyway)
-    bool useCls       = !e.cls.empty() && op.name != "setLocatorsByColIdx";
     std::string opkey = op.name;
     std::vector<Fail> tf;
-    compareWithShadow(db, before, s, e, tf, eval);
+    { PROFT(2); compareWithShadow(db, before, s, e, tf, eval); }
     std::string locKey;
-    size_t nb = res.fails.size();
+    size_t nb        = res.fails.size();
+    bool rolesFailed = false;
     for (auto& f : tf)
     {
-      std::string rule = (op.name == "setLocatorsByColIdx" && f.rule == "role-mismatch") ? "wrong-column" : f.rule;
-      std::string key  = "C07:" + opkey + ":" + rule;
+      std::string key = "C07:" + opkey + ":" + f.rule;
+      if (f.oracle == "t.roles") rolesFailed = true;
       if (isLocRule(f.rule)) { if (locKey.empty()) locKey = key; key = locKey; }
       res.fails.push_back({(int)i, key, f.oracle, f.rule + ": " + f.detail});
     }
     auto v = checkInv((int)i, opkey, true, locKey);
-    if (op.name == "setLocatorsByColIdx" && !locKey.empty())
+    // A known-defect input class gets ONE key whatever rule it breaks in that step:
+    //  - setLocatorsByColIdx addressing the wrong columns (D2) -> C07:setLocatorsByColIdx:wrong-column
+    //  - otherwise the class named by the model (Exp::cls)      -> C07:<cls>
+    std::string classKey;
+    if (op.name == "setLocatorsByColIdx" && rolesFailed) classKey = "C07:setLocatorsByColIdx:wrong-column";
+    else if (!e.cls.empty()) classKey = "C07:" + e.cls;
+    if (!classKey.empty())
       for (size_t k = nb; k < res.fails.size(); k++)
-        if (stickyKey(res.fails[k].oracle.substr(res.fails[k].oracle.find('.') + 1)).empty()) res.fails[k].key = locKey;
-    if (useCls)
-      for (size_t k = nb; k < res.fails.size(); k++)
-        if (res.fails[k].key.compare(0, 4 + opkey.size() + 1, "C07:" + opkey + ":") == 0) res.fails[k].key = "C07:" + e.cls;
+        if (res.fails[k].key.compare(0, 4 + opkey.size() + 1, "C07:" + opkey + ":") == 0) res.fails[k].key = classKey;
     bool failed = res.fails.size() > nb;
     if (failed)
     {
@@ -1277,7 +1581,7 @@ static RunResult runHistory(const Init& in, std::vector<Op>& ops, Ctx* c, const 
       DbInvOptions o;
       if (hasHardViolation(collectDbViolations(db, o))) { res.abandoned = true; delete db; return res; }
     }
-    resync(db, s); // don't-care parts and (after a failure) everything else are taken from the Db
+    { PROFT(4); resync(db, s); } // don't-care parts and (after a failure) everything else are taken from the Db
     if (verbose)
     {
       std::string o = "   uids=" + pv(s.order);
@@ -1390,4 +1694,11 @@ static void run_case(Rng& r, Ctx& c)
   }
 }
 
-int main(int argc, char** argv) { return run_main(argc, argv, "C07", run_case); }
+int main(int argc, char** argv)
+{
+  int rc = run_main(argc, argv, "C07", run_case);
+#ifdef C07_PROF
+  fprintf(stderr, "PROF gen=%.2f run=%.2f compare=%.2f inv=%.2f resync=%.2f\n", PROF[0], PROF[1], PROF[2], PROF[3], PROF[4]);
+#endif
+  return rc;
+}
